@@ -6,28 +6,30 @@
 (***************************************************************************)
 EXTENDS Naturals, TLC
 
+CONSTANT KS          \* key-size classes (in blocks) to distinguish; 0 = not keyed
+
 VARIABLES life, keyed
 vars == <<life, keyed>>
 
-Init == life = "zeroed" /\ keyed = FALSE
+Init == life = "zeroed" /\ keyed = 0
 Live == life = "live"
 
 DoInit(fail) ==
     /\ life # "live"
     /\ life' = (IF fail THEN "failed" ELSE "live")
-    /\ keyed' = FALSE
+    /\ keyed' = 0
 
 DoCleanup ==
-    /\ life' = IF Live THEN "dead" ELSE life
-    /\ keyed' = IF Live THEN FALSE ELSE keyed
+    /\ life' = (IF Live THEN "dead" ELSE life)
+    /\ keyed' = (IF Live THEN 0 ELSE keyed)
 
-(* cls: valid | null | short | long | badrounds *)
-DoSetKey(cls) ==
-    /\ keyed' = IF Live /\ cls = "valid" THEN TRUE ELSE keyed
+(* cls: valid (z = size class) | null | short | long | badrounds (z = 0) *)
+DoSetKey(cls, z) ==
+    /\ keyed' = (IF Live /\ cls = "valid" THEN z ELSE keyed)
     /\ UNCHANGED life
 
 (* Mantis only (ignored for the SKINNY kinds); on a keyed object *)
-DoSwap == (Live => keyed) /\ UNCHANGED vars
+DoSwap == (Live => keyed # 0) /\ UNCHANGED vars
 
 (* cls: zero | one | below (psize - 1 block) | batch (exactly 8 blocks) | above (2*8+3 blocks) | ragged *)
 DoEncrypt(cls) == UNCHANGED vars
@@ -36,7 +38,8 @@ DoDecrypt(cls) == UNCHANGED vars
 Next ==
     \/ \E f \in BOOLEAN : DoInit(f)
     \/ DoCleanup
-    \/ \E c \in {"valid", "null", "short", "long", "badrounds"} : DoSetKey(c)
+    \/ \E z \in KS : DoSetKey("valid", z)
+    \/ \E c \in {"null", "short", "long", "badrounds"} : DoSetKey(c, 0)
     \/ DoSwap
     \/ \E c \in {"zero", "one", "below", "batch", "above", "ragged"} : DoEncrypt(c)
     \/ \E c \in {"zero", "one", "below", "batch", "above", "ragged"} : DoDecrypt(c)
